@@ -24,6 +24,8 @@ pub struct CfgNode {
     node: RefCell<ParserNode>,
     /// Any labels that refer to this instruction.
     pub labels: HashSet<LabelStringToken>,
+    /// The same labels in the order in which the program writes them.
+    labels_in_order: RefCell<Vec<LabelStringToken>>,
     /// Which segment is this node in?
     segment: Segment,
     /// Index of this node in the program (the files as they are pasted into
@@ -91,6 +93,7 @@ impl CfgNode {
         CfgNode {
             node: RefCell::new(node),
             labels,
+            labels_in_order: RefCell::new(Vec::new()),
             segment,
             position: std::cell::Cell::new(0),
             nexts: RefCell::new(HashSet::new()),
@@ -104,6 +107,15 @@ impl CfgNode {
             live_out: RefCell::new(RegisterSet::new()),
             u_def: RefCell::new(RegisterSet::new()),
         }
+    }
+
+    /// The labels of this node in the order in which the program writes them.
+    pub fn labels_in_order(&self) -> Vec<LabelStringToken> {
+        self.labels_in_order.borrow().clone()
+    }
+
+    pub fn set_labels_in_order(&self, labels: Vec<LabelStringToken>) {
+        *self.labels_in_order.borrow_mut() = labels;
     }
 
     /// Index of this node in program order.
